@@ -173,11 +173,17 @@ impl TypeCheckable for FunctionCall {
 
 impl fmt::Display for FunctionCall {
     fn fmt(&self, f: &mut fmt::Formatter<'_>) -> fmt::Result {
-        let builtin = std_fn_to_string(self);
-        if let Some(string) = builtin {
-            return write!(f, "{}", string);
-        }
+        //the sugared forms (a..b for range) are only read by the grammar where an iterator
+        //is expected: they are written by Display for IterableSet, a call anywhere else
+        //keeps the form name(args)
         write!(f, "{}", default_rooc_function_to_string(self))
+    }
+}
+
+impl FunctionCall {
+    /// The source form of the call where an iterator is expected (`i in 0..n`).
+    pub fn to_iterator_string(&self) -> String {
+        std_fn_to_string(self).unwrap_or_else(|| default_rooc_function_to_string(self))
     }
 }
 
